@@ -176,9 +176,11 @@ def keepNotes : Option String → Option String
   | some s => if s.isEmpty then none else some s
   | none => none
 
+/-- `self.nml_doc.append(obj)`: `GeneratedsSuperSuper.__add` does not add an object that is already in the list
+    (`obj in list`); the parsers hand over the same object every time an id recurs, so the token decides -/
 def addComp (w : World) (me : Bool) (c : Option String) : World :=
   match c with
-  | some t => w.upd me (fun s => { s with comps := s.comps ++ [t] })
+  | some t => w.upd me (fun s => if s.comps.contains t then s else { s with comps := s.comps ++ [t] })
   | none => w
 
 /-- `"../%s/%i/%s" % (pop, cell, component)`, or `"../%s[%i]"` for a population without instances -/
